@@ -32,10 +32,12 @@ static void buildFeatures(QXmppStreamFeatures &f)
     QStringList mechs;
     if (vp_bool()) mechs << vpSymStringNonEmpty(2);
     f.setAuthMechanisms(mechs);
-    if (vp_bool()) {
+    // SASL2 offer: absent / without bind2 / with bind2 (one arbitrary feature) - case split of the instance
+    unsigned s2k = (vp_c04_cfg() >> CFG_S2_SHIFT) & 3;
+    if (s2k >= 1) {
         Sasl2::StreamFeature s2;
-        if (vp_bool()) s2.mechanisms << vpSymStringNonEmpty(2);
-        if (vp_bool()) { s2.bind2Feature.emplace(); if (vp_bool()) s2.bind2Feature->features.push_back(vpSymStringNonEmpty(2)); }
+        s2.mechanisms << vpSymStringNonEmpty(2);
+        if (s2k >= 2) { s2.bind2Feature.emplace(); s2.bind2Feature->features.push_back(vpSymStringNonEmpty(2)); }
         s2.streamResumptionAvailable = vp_bool();
         f.setSasl2Feature(s2);
     }
